@@ -13,7 +13,7 @@ import random
 
 from harness import core
 
-CH = {1: 'a', 2: ' ', 3: '"', 4: "'", 5: '#', 6: '\\', 7: 'é', 8: '@[S]@', 9: '=', 10: ')', 11: 'VAL', 12: '-contents-of'}
+CH = {1: 'a', 2: ' ', 3: '"', 4: "'", 5: '#', 6: '\\', 7: 'é', 8: '@[S]@', 9: '=', 10: ')', 11: 'VAL', 12: '-contents-of', 13: ':>'}
 SEP = '--SEP--'
 LINE_KINDS = {1: 'text line', 2: 'a @[S]@ b', 3: 'EOF ', 4: ' EOF', 5: '[setup]', 6: '# not a comment', 7: '',
               8: '"a\' b', 9: 'EOFX', 10: '   ', 11: '\t'}
@@ -207,7 +207,7 @@ def run(ctx):
     ctx.require_coverage(mc, ['Read'])
     cases, dev = {}, {}
     for name, alpha, ml in (('full', full, max_full), ('quotes', small, max_small),
-                            ('option words', [1, 2, 3, 4, 12], max_full)):
+                            ('option words', [1, 2, 3, 4, 12], max_full), ('text marker', [1, 2, 3, 4, 13], max_full)):
         e = ctx.tlc('LexerExport', lexer_cfg(alpha, ml, export=True), workers=1, name='export-' + name, count=False,
                     timeout=3000)
         for c in e.printed_json('CASE'):
@@ -230,7 +230,7 @@ def run(ctx):
     bad = 0
     for p, dp, r in zip(probes, dprobes, results):
         ctx.count()
-        if any(ch in p['src'] for ch in '"\'#\\@=)-'):
+        if any(ch in p['src'] for ch in '"\'#\\@=)-:'):
             ctx.nontrivial(p['ctx'] + ':' + p['src'])
         if agrees(p['exp'], r):
             continue
